@@ -5,32 +5,72 @@ ID = "C17"
 LEVEL = "exploration"
 FLAVOUR = "plain"
 TIMEOUT = 400
-RULE = ("files x read options. Files: W = written by fastparquet (two columns of every kind pair from a 14-kind set, "
-        "1-3 row groups, nulls placed in none / first / last row group only); F = foreign files from the specpq "
-        "writer (optional/required INT32, INT64, BOOLEAN, DOUBLE, UTF8, dictionary-encoded, 1-3 row groups, nulls "
-        "in none/first/middle/last row group only, chunk statistics present / absent / partly, v1/v2); H = hive "
-        "datasets with 1-2 partition columns; I = frames written with a named index of 10 kinds (ints, floats, "
-        "text, timestamps of several units and time zones, timedelta). Options: columns (None, each single, reversed), categories (None, "
-        "list, dict), index (None, False, name of another column), pandas_nulls (True, False), dtypes override. Oracle: "
-        "columns / dtypes / categories / cats / _get_index / count / num_rows / info versus the frame returned; "
-        "non-trivial = a read that returned >= 1 row and was compared")
+RULE = ("files x read options x short handle histories. Files: W = written by fastparquet (two columns, the first of "
+        "17 kinds (all kinds of the alphabet in thorough), 1-3 row groups, nulls placed in none / first / last row "
+        "group only; timestamp kinds also with times='int96'); F = foreign files from the specpq writer "
+        "(optional/required INT32, INT64, BOOLEAN, DOUBLE, UTF8, dictionary-encoded INT32 / UTF8, INT_8, UINT_8, "
+        "UINT_64, TIMESTAMP_MILLIS, INT96, FLOAT; 1-3 row groups, nulls in none/first/middle/last row group only, "
+        "chunk statistics present / absent / partly / without null count, v1/v2; column layouts x,y / y,x / map,x,y "
+        "so that the schema position of the nullable column differs from its chunk position); P = foreign files "
+        "WITH pandas metadata in the pyarrow style (nullable ints with the two type fields either way round, "
+        "numpy ints that do hold NULLs, time zones spelled three ways, range / unnamed / named index, categoricals "
+        "with and without a plain-encoded fallback row group); H = hive datasets with 1-2 partition columns; "
+        "I = frames written with a named index of 14 kinds (ints, floats, text, bool, masked, categorical, "
+        "timestamps of several units and time zones, timedelta; with and without a missing value in the index); "
+        "I2 = frames written with a two-level index. Options: columns (None, each single, reversed), categories "
+        "(None, list, dict, [] and {} = decline the stored categoricals; list / dict also on dictionary-encoded "
+        "foreign columns), index (None, False, name of another data or partition column, list of two names), "
+        "pandas_nulls (True, False), dtypes override (per column int -> float64 / masked int, masked -> float64; "
+        "through to_pandas(dtypes=) and through the constructor). Histories: one handle used for two reads with "
+        "different options (a changed option followed by the default read; every ordered pair in "
+        "thorough) against a fresh handle. Oracle: columns / dtypes / categories / cats / _get_index / count / "
+        "num_rows / info versus the frame returned, versus every frame of iter_row_groups, versus head(), and "
+        "versus the predictions of every sliced handle pf[i]; non-trivial = a read that returned >= 1 row and was "
+        "compared")
 ASSUMPTIONS = ["dtype compared by kind + width + nullable-extension-ness + category-ness",
-               "under pandas 3 the category dtype is read from the column's array (DataFrame.dtypes can be stale)"]
+               "under pandas 3 the category dtype is read from the column's array (DataFrame.dtypes can be stale)",
+               "levels of a multi-level index are compared by name and count only (fastparquet stores them as "
+               "categoricals and rebuilds the levels from the dictionaries)",
+               "asking for a category of a column that has no dictionary is a usage error and not enumerated",
+               "a dtypes override names every column (the library has no documented meaning for a partial mapping)"]
 
 W_KINDS = ["bool", "int32", "int64", "uint8", "float64", "str_obj", "bytes_obj", "dt_ns", "dt_us_paris", "td_us",
            "cat_str", "cat_int", "Int64", "boolean"]
+W_KINDS_MORE = ["float32", "UInt8", "cat_str_ordered"]
+W_INT96 = ["dt_ns", "dt_us_paris"]
 I_KINDS = ["int64", "float64", "str_obj", "dt_ns", "dt_us", "dt_ms", "dt_ns_utc", "dt_us_paris", "dt_ns_offset", "td_us"]
+I_KINDS_MORE = ["bool", "Int64", "boolean", "cat_str"]
+I_INT96 = ["dt_us_paris"]
+I2_PAIRS = [("int64", "str_obj"), ("Int64", "cat_str"), ("dt_us_paris", "float64")]
+F_TYPES = ["int32", "int64", "bool", "double", "utf8", "int32_dict"]
+F_TYPES_SCAN = ["int8", "uint8", "uint64"]          # the null scan decides: statistics matter
+F_TYPES_PLAIN = ["utf8_dict", "ts_millis", "int96", "float"]   # never promoted: one statistics setting
+F_LAYOUT_TYPES = ["int32", "bool"]
+P_CASES = ["Int64_arrow", "Int64_swapped", "int64_md_nulls", "bool_md_nulls", "object_md_nulls", "tz_ns", "tz_us",
+           "tz_us_full", "tz_index", "range_index", "unnamed_index", "named_index", "cat_dict", "cat_fallback"]
 CREATED_BY = "parquet-mr version 1.12.3 (build f8dced182c4c1fbdec6ccb3185537b5a01e6ed6b)"
+CREATED_BY_ARROW = "parquet-cpp-arrow version 14.0.1"
 
 
 def points(tier):
+    from mc import alphabets as A
+    thorough = tier == "thorough"
     pts = []
-    for k in W_KINDS:
+    wk = W_KINDS + W_KINDS_MORE
+    if thorough:
+        wk = wk + [k for k in A.ALL_KINDS if k not in wk]
+    for k in wk:
         for nrg in (1, 2, 3):
             for where in ("none", "first", "last"):
                 for ver in (1, 2):
+                    if k not in W_KINDS and ver == 2 and not thorough:
+                        continue
                     pts.append({"f": "W", "kind": k, "nrg": nrg, "nulls_in": where, "v": ver})
-    for t in ("int32", "int64", "bool", "double", "utf8", "int32_dict"):
+    for k in ([x for x in A.ALL_KINDS if x.startswith("dt_")] if thorough else W_INT96):
+        for where in ("none", "first"):
+            pts.append({"f": "W", "kind": k, "nrg": 2, "nulls_in": where, "v": 1, "times": "int96"})
+
+    def f_points(t, stats, layouts, versions):
         for rep in ("optional", "required"):
             for nrg in (1, 2, 3):
                 for where in ("none", "first", "middle", "last"):
@@ -38,18 +78,45 @@ def points(tier):
                         continue
                     if where == "middle" and nrg < 3:
                         continue
-                    for st in ("all", "none", "first_only", "no_null_count"):
-                        for ver in ((1, 2) if tier == "thorough" else (1,)):
-                            pts.append({"f": "F", "type": t, "rep": rep, "nrg": nrg, "nulls_in": where,
-                                        "stats": st, "v": ver})
+                    for st in stats:
+                        for ver in versions:
+                            for lay in layouts:
+                                p = {"f": "F", "type": t, "rep": rep, "nrg": nrg, "nulls_in": where,
+                                     "stats": st, "v": ver}
+                                if lay != "xy":
+                                    p["layout"] = lay
+                                pts.append(p)
+    all_stats = ("all", "none", "first_only", "no_null_count")
+    vers = (1, 2) if thorough else (1,)
+    for t in F_TYPES:
+        f_points(t, all_stats, ("xy",), vers)
+    for t in F_LAYOUT_TYPES:
+        # the nullable column second, and behind a column that owns two chunks
+        f_points(t, all_stats if thorough else ("all", "none"), ("yx", "mxy"), vers)
+    for t in F_TYPES_SCAN:
+        f_points(t, all_stats if thorough else ("all", "none"), ("xy",), vers)
+    for t in F_TYPES_PLAIN:
+        f_points(t, ("all",), ("xy",), vers)
+    for case in P_CASES:
+        for nrg in (1, 2):
+            pts.append({"f": "P", "case": case, "nrg": nrg})
     for nparts in (1, 2):
         for pk in ("int", "str", "float"):
             pts.append({"f": "H", "nparts": nparts, "pkind": pk})
     # I: frames written with a named index of every plain kind (incl. tz-aware / non-ns timestamps); the index comes
     # from the pandas metadata, is dropped (index=False) or another column is chosen (index=name)
-    for k in I_KINDS:
+    for k in I_KINDS + I_KINDS_MORE:
         for nrg in (1, 2):
             pts.append({"f": "I", "kind": k, "nrg": nrg})
+            if k in A.NULLABLE_KINDS and (k in I_KINDS_MORE or nrg == 2 or thorough):
+                pts.append({"f": "I", "kind": k, "nrg": nrg, "ixnull": True})
+    for k in ([x for x in I_KINDS if x.startswith("dt_")] if thorough else I_INT96):
+        pts.append({"f": "I", "kind": k, "nrg": 2, "times": "int96"})
+    for a, b in I2_PAIRS:
+        for nrg in (1, 2):
+            pts.append({"f": "I2", "kinds": a + "+" + b, "nrg": nrg})
+    for p in pts:
+        p["tier"] = tier
     return pts
 
 
@@ -57,9 +124,13 @@ def explore(run, tier):
     run.lattice("metadata-vs-read", points(tier), "run")
 
 
+SIG_KEYS = ("kind", "type", "rep", "stats", "nulls_in", "nrg", "pkind", "nparts", "layout", "case", "times", "ixnull",
+            "kinds")
+
+
 def crash_sig(point, res):
     s = {"f": point["f"], "symptom": res["outcome"]}
-    for k in ("kind", "type", "rep", "stats", "nulls_in"):
+    for k in ("kind", "type", "rep", "stats", "nulls_in", "layout", "case", "times", "ixnull", "kinds"):
         if k in point:
             s[k] = point[k]
     return s
@@ -99,6 +170,10 @@ def actual_dtype(df, col):
     return a
 
 
+def _dts(n):
+    return str(n[0]) + str(n[1]) + ("m" if n[2] else "")
+
+
 class Cell:
     def __init__(self, p):
         self.p = p
@@ -109,7 +184,7 @@ class Cell:
 
     def bad(self, symptom, detail, **extra):
         s = {"f": self.p["f"], "symptom": symptom}
-        for k in ("kind", "type", "rep", "stats", "nulls_in", "nrg", "pkind", "nparts"):
+        for k in SIG_KEYS:
             if k in self.p:
                 s[k] = self.p[k]
         s.update(self.ctx)
@@ -126,113 +201,275 @@ class Cell:
                 "counts": {"reads": self.reads}, "sig": list(self.sigs.values()) or None, "detail": self.detail}
 
 
-def compare(c, pf_factory, what, datacols, partcols=(), index_names=()):
-    """all option tuples on one dataset"""
+def _index_list(index):
+    if isinstance(index, str):
+        return [index]
+    if isinstance(index, (list, tuple)):
+        return list(index)
+    return None
+
+
+def _shown_names(names):
+    import re
+    return [None if (n is None or re.match(r"__index_level_\d+__$", str(n))) else n for n in names]
+
+
+def _cat_arg(mode, pf, cols, dict_cols):
+    """categories argument of one mode, or the marker 'skip'"""
+    known = dict(pf.categories) if pf.categories else {}
+    if not known and dict_cols:
+        known = dict(dict_cols)
+    avail = {k: v for k, v in known.items() if cols is None or k in cols}
+    if mode == "none":
+        return None
+    if not avail:
+        return "skip"
+    if mode == "list":
+        return list(avail)
+    if mode == "dict":
+        return avail
+    # decline the stored categoricals: the columns come back with their value type
+    if not pf.categories:
+        return "skip"
+    return [] if mode == "empty_list" else {}
+
+
+def predict(pf, carg):
+    """the metadata-only answers of one handle"""
+    return {"columns": list(pf.columns), "dtypes": dict(pf._dtypes(carg)), "count": pf.count(),
+            "rg": [rg.num_rows for rg in pf.row_groups], "info": pf.info, "index": pf._get_index(),
+            "cats": list(pf.cats)}
+
+
+def check_read(c, pf, what, cols, carg, index, m, parts=True):
+    """read with the options and compare every metadata-only answer in m with the frame; -> frame or None"""
+    m_columns, m_dtypes, m_count, m_rg, m_info, m_index, m_cats = (
+        m["columns"], m["dtypes"], m["count"], m["rg"], m["info"], m["index"], m["cats"])
+    ilist = _index_list(index)
+    iarg = list(index) if isinstance(index, tuple) else index
+    try:
+        df = pf.to_pandas(columns=cols, categories=carg, index=iarg)
+    except Exception as e:
+        c.bad("read_raised", "%s opts=%r: predicted dtypes %r; read raised %s: %s" % (
+            what, c.ctx, {k: str(v) for k, v in m_dtypes.items()}, type(e).__name__, str(e)[:120]),
+            exc=type(e).__name__)
+        return None
+    if len(df):
+        c.reads += 1
+    if m_count != len(df):
+        c.bad("count", "%s: count()=%d, rows read %d" % (what, m_count, len(df)))
+    if sum(m_rg) != len(df) or m_info["rows"] != len(df):
+        c.bad("count", "%s: row-group num_rows %r / info %r, rows read %d" % (what, m_rg, m_info["rows"], len(df)))
+    if m_info["columns"] != m_columns or m_info["partitions"] != m_cats:
+        c.bad("info", "%s: info %r disagrees with columns/cats" % (what, m_info))
+    if m_info.get("row_groups") != len(m_rg):
+        c.bad("info", "%s: info %r disagrees with the number of row groups %d" % (what, m_info, len(m_rg)))
+    want_cols = (cols if cols is not None else m_columns + m_cats)
+    got_cols = [str(x) for x in df.columns]
+    eff_index = []
+    if index is None and m_index:
+        eff_index = list(m_index)
+        want_cols = [x for x in want_cols if x not in m_index]
+        if list(df.index.names) != _shown_names(m_index):
+            c.bad("index", "%s: _get_index()=%r, frame index names %r" % (what, m_index, list(df.index.names)))
+    if ilist is not None:
+        eff_index = ilist
+        want_cols = [x for x in want_cols if x not in ilist]
+        if list(df.index.names) != ilist:
+            c.bad("index", "%s: index=%r requested, frame index names %r" % (what, index, list(df.index.names)))
+    if eff_index and df.index.nlevels != len(eff_index):
+        c.bad("index", "%s opts=%r: %d index columns announced, the frame index has %d level(s)" % (
+            what, c.ctx, len(eff_index), df.index.nlevels))
+    if not eff_index and (df.index.nlevels != 1 or type(df.index).__name__ != "RangeIndex"):
+        c.bad("index", "%s opts=%r: no index column announced, the frame index is %s %r" % (
+            what, c.ctx, type(df.index).__name__, list(df.index.names)))
+    ipred = None
+    if len(eff_index) == 1 and df.index.nlevels == 1 and eff_index[0] in m_dtypes:
+        # the index column's predicted dtype must be the dtype of the index actually built
+        idt = df.index.dtype
+        ipred = norm_dtype(m_dtypes[eff_index[0]])
+        act = norm_dtype(idt)
+        if ipred != act:
+            c.bad("index_dtype", "%s opts=%r: index %s predicted %s %r, read gives %s %r" % (
+                what, c.ctx, eff_index[0], m_dtypes[eff_index[0]], ipred, idt, act),
+                pred=str(ipred[0]) + str(ipred[1]), act=str(act[0]) + str(act[1]))
+    if got_cols != [str(x) for x in want_cols]:
+        c.bad("columns", "%s opts=%r: predicted columns %r, frame has %r" % (what, c.ctx, want_cols, got_cols))
+        return df
+    for col in got_cols:
+        if col not in m_dtypes:
+            c.bad("dtype_missing", "%s: no predicted dtype for %s" % (what, col))
+            continue
+        pred = norm_dtype(m_dtypes[col])
+        act = norm_dtype(actual_dtype(df, col))
+        if pred != act:
+            c.bad("dtype", "%s opts=%r: column %s predicted %s %r, read gives %s %r" % (
+                what, c.ctx, col, m_dtypes[col], pred, actual_dtype(df, col), act),
+                pred=_dts(pred), act=_dts(act))
+    if not parts:
+        return df
+    # per-row-group counts, and every row-group frame against the same predictions (a task graph is built from
+    # the predictions of the whole dataset and executed row group by row group)
+    try:
+        frames = list(pf.iter_row_groups(columns=cols, categories=carg, index=iarg))
+        lens = [len(x) for x in frames]
+        if lens != [n for n in m_rg if n]:
+            c.bad("count", "%s: iter_row_groups lengths %r, num_rows %r" % (what, lens, m_rg))
+        for gi, part in enumerate(frames):
+            pcols = [str(x) for x in part.columns]
+            if pcols != got_cols or list(part.index.names) != list(df.index.names):
+                c.bad("rg_columns", "%s opts=%r: row-group frame %d has columns %r index %r, the whole read %r %r" % (
+                    what, c.ctx, gi, pcols, list(part.index.names), got_cols, list(df.index.names)))
+                continue
+            for col in pcols:
+                if col not in m_dtypes:
+                    continue
+                pred = norm_dtype(m_dtypes[col])
+                act = norm_dtype(actual_dtype(part, col))
+                if pred != act:
+                    c.bad("rg_dtype", "%s opts=%r: column %s predicted %s, row-group frame %d of %d gives %s" % (
+                        what, c.ctx, col, m_dtypes[col], gi, len(frames), actual_dtype(part, col)),
+                        pred=_dts(pred), act=_dts(act))
+            if ipred is not None and part.index.nlevels == 1 and norm_dtype(part.index.dtype) != ipred:
+                act = norm_dtype(part.index.dtype)
+                c.bad("rg_index_dtype", "%s opts=%r: index %s predicted %s, row-group frame %d gives %s" % (
+                    what, c.ctx, eff_index[0], m_dtypes[eff_index[0]], gi, part.index.dtype),
+                    pred=str(ipred[0]) + str(ipred[1]), act=str(act[0]) + str(act[1]))
+    except Exception as e:
+        c.bad("iter_raised", "%s: iter_row_groups: %s: %s" % (what, type(e).__name__, str(e)[:100]))
+    return df
+
+
+def _same_prediction(a, b):
+    """two predictions (dicts of predict()) say the same"""
+    if a["columns"] != b["columns"] or a["index"] != b["index"] or a["cats"] != b["cats"] or a["count"] != b["count"]:
+        return False
+    if list(a["dtypes"]) != list(b["dtypes"]):
+        return False
+    return all(norm_dtype(a["dtypes"][k]) == norm_dtype(b["dtypes"][k]) for k in a["dtypes"])
+
+
+def compare(c, pf_factory, what, datacols, partcols=(), index_names=(), dict_cols=None, extras=True):
+    """all option tuples on one dataset; extras: also the handle histories and the override sweep (the thorough tier
+    runs them on every dataset, the quick tier where the caller says so)"""
     import numpy as np
     import pandas as pd
+    thorough = c.p.get("tier") == "thorough"
     allcols = list(datacols)
     col_opts = [None] + [[x] for x in allcols] + ([list(reversed(allcols))] if len(allcols) > 1 else [])
     for pn in (True, False):
         for cols in col_opts:
-            for cats in ("none", "list", "dict"):
+            for cats in ("none", "list", "dict", "empty_list") + (("empty_dict",) if thorough or cols is None else ()):
                 for index in (None, False) + tuple(index_names):
-                    if isinstance(index, str) and cols is not None and index not in cols:
+                    ilist = _index_list(index)
+                    if ilist is not None and cols is not None and any(i not in cols for i in ilist):
                         continue
                     c.ctx = {"pandas_nulls": pn, "cols": "all" if cols is None else ("single" if len(cols) == 1 else "reversed"),
                              "categories": cats, "index": str(index)}
+                    if ilist is not None and any(i in partcols for i in ilist):
+                        c.ctx["index_is"] = "partition"
+                    if isinstance(index, tuple):
+                        c.ctx["index"] = "+".join(index)
                     try:
                         pf = pf_factory(pn)
                     except Exception as e:
                         c.bad("open_raised", "%s: %s: %s" % (what, type(e).__name__, e))
                         return
-                    known_cats = dict(pf.categories) if pf.categories else {}
-                    if cats == "none":
-                        carg = None
-                    elif cats == "list":
-                        carg = [k for k in known_cats if cols is None or k in cols]
-                        if not carg:
-                            continue
-                    else:
-                        carg = {k: v for k, v in known_cats.items() if cols is None or k in cols}
-                        if not carg:
-                            continue
+                    carg = _cat_arg(cats, pf, cols, dict_cols)
+                    if isinstance(carg, str):
+                        continue
                     # ---- metadata-only answers
                     try:
-                        m_columns = list(pf.columns)
-                        m_dtypes = dict(pf._dtypes(carg))
-                        m_count = pf.count()
-                        m_rg = [rg.num_rows for rg in pf.row_groups]
-                        m_info = pf.info
-                        m_index = pf._get_index()
-                        m_cats = list(pf.cats)
+                        m = predict(pf, carg)
                     except Exception as e:
                         c.bad("metadata_raised", "%s: %s: %s" % (what, type(e).__name__, e))
                         continue
                     # ---- the read
-                    try:
-                        df = pf.to_pandas(columns=cols, categories=carg, index=index)
-                    except Exception as e:
-                        c.bad("read_raised", "%s opts=%r: predicted dtypes %r; read raised %s: %s" % (
-                            what, c.ctx, {k: str(v) for k, v in m_dtypes.items()}, type(e).__name__, str(e)[:120]),
-                            exc=type(e).__name__)
+                    df = check_read(c, pf, what, cols, carg, index, m)
+                    if df is None or cols is not None or index is not None:
                         continue
-                    if len(df):
-                        c.reads += 1
-                    if m_count != len(df):
-                        c.bad("count", "%s: count()=%d, rows read %d" % (what, m_count, len(df)))
-                    if sum(m_rg) != len(df) or m_info["rows"] != len(df):
-                        c.bad("count", "%s: row-group num_rows %r / info %r, rows read %d" % (what, m_rg, m_info["rows"], len(df)))
-                    if m_info["columns"] != m_columns or m_info["partitions"] != m_cats:
-                        c.bad("info", "%s: info %r disagrees with columns/cats" % (what, m_info))
-                    want_cols = (cols if cols is not None else m_columns + m_cats)
-                    got_cols = [str(x) for x in df.columns]
-                    if index is None and m_index:
-                        want_cols = [x for x in want_cols if x not in m_index]
-                        if list(df.index.names) != list(m_index):
-                            c.bad("index", "%s: _get_index()=%r, frame index names %r" % (what, m_index, list(df.index.names)))
-                    if isinstance(index, str):
-                        want_cols = [x for x in want_cols if x != index]
-                        if list(df.index.names) != [index]:
-                            c.bad("index", "%s: index=%r requested, frame index names %r" % (what, index, list(df.index.names)))
-                    if index is not False and df.index.nlevels == 1 and df.index.name is not None \
-                            and str(df.index.name) in m_dtypes:
-                        # the index column's predicted dtype must be the dtype of the index actually built
-                        idt = df.index.dtype
-                        pred = norm_dtype(m_dtypes[str(df.index.name)])
-                        act = norm_dtype(idt)
-                        if pred != act:
-                            c.bad("index_dtype", "%s opts=%r: index %s predicted %s %r, read gives %s %r" % (
-                                what, c.ctx, df.index.name, m_dtypes[str(df.index.name)], pred, idt, act),
-                                pred=str(pred[0]) + str(pred[1]), act=str(act[0]) + str(act[1]))
-                    if got_cols != [str(x) for x in want_cols]:
-                        c.bad("columns", "%s opts=%r: predicted columns %r, frame has %r" % (what, c.ctx, want_cols, got_cols))
-                        continue
-                    for col in got_cols:
-                        if col not in m_dtypes:
-                            c.bad("dtype_missing", "%s: no predicted dtype for %s" % (what, col))
-                            continue
-                        pred = norm_dtype(m_dtypes[col])
-                        act = norm_dtype(actual_dtype(df, col))
-                        if pred != act:
-                            c.bad("dtype", "%s opts=%r: column %s predicted %s %r, read gives %s %r" % (
-                                what, c.ctx, col, m_dtypes[col], pred, actual_dtype(df, col), act),
-                                pred=str(pred[0]) + str(pred[1]) + ("m" if pred[2] else ""),
-                                act=str(act[0]) + str(act[1]) + ("m" if act[2] else ""))
-                    # per-row-group counts
+                    # ---- handles derived from this one predict what the whole dataset predicts
                     try:
-                        parts = [len(x) for x in pf.iter_row_groups(columns=cols, categories=carg, index=index)]
-                        if parts != [n for n in m_rg if n]:
-                            c.bad("count", "%s: iter_row_groups lengths %r, num_rows %r" % (what, parts, m_rg))
+                        for gi in range(len(m["rg"])):
+                            sub = pf[gi]._dtypes(carg)
+                            diff = [k for k in m["dtypes"] if k not in sub
+                                    or norm_dtype(sub[k]) != norm_dtype(m["dtypes"][k])]
+                            if diff or list(sub) != list(m["dtypes"]):
+                                k = (diff or ["(order)"])[0]
+                                c.bad("slice_prediction", "%s opts=%r: pf[%d] predicts %s for %s, the dataset %s" % (
+                                    what, c.ctx, gi, sub.get(k), k, m["dtypes"].get(k)))
+                        if cats == "none" and m["count"]:
+                            h = pf.head(1)
+                            for col in [str(x) for x in h.columns]:
+                                if col in m["dtypes"] and norm_dtype(actual_dtype(h, col)) != norm_dtype(m["dtypes"][col]):
+                                    c.bad("head_dtype", "%s opts=%r: column %s predicted %s, head(1) gives %s" % (
+                                        what, c.ctx, col, m["dtypes"][col], actual_dtype(h, col)),
+                                        pred=_dts(norm_dtype(m["dtypes"][col])), act=_dts(norm_dtype(actual_dtype(h, col))))
                     except Exception as e:
-                        c.bad("iter_raised", "%s: iter_row_groups: %s: %s" % (what, type(e).__name__, str(e)[:100]))
-    # dtypes override
+                        c.bad("slice_raised", "%s opts=%r: pf[i] / head: %s: %s" % (what, c.ctx, type(e).__name__, str(e)[:100]))
+    if extras or thorough:
+        history(c, pf_factory, what, allcols, index_names, dict_cols, thorough)
+    overrides(c, pf_factory, what, partcols, sweep=extras or thorough)
+
+
+def history(c, pf_factory, what, allcols, index_names, dict_cols, thorough):
+    """one handle, two reads with different options: the second behaves like on a fresh handle, and what the used
+    handle reports (dtypes, columns) is what a fresh one reports"""
+    opts = [("default", None, "none", None), ("single", [allcols[0]], "none", None), ("no_index", None, "none", False),
+            ("declined", None, "empty_list", None), ("cats_list", None, "list", None)]
+    if index_names:
+        opts.append(("index", None, "none", index_names[0]))
+    # quick: a changed option, then the default read; thorough: every ordered pair
+    pairs = [(a, b) for a in opts for b in opts if a is not b and (thorough or b[0] == "default")]
+    for a, b in pairs:
+        c.ctx = {"history": a[0] + ">" + b[0]}
+        try:
+            used, fresh = pf_factory(True), pf_factory(True)
+        except Exception as e:
+            c.bad("open_raised", "%s: %s: %s" % (what, type(e).__name__, e))
+            return
+        ca, cb = _cat_arg(a[2], used, a[1], dict_cols), _cat_arg(b[2], used, b[1], dict_cols)
+        if isinstance(ca, str) or isinstance(cb, str):
+            continue
+        try:
+            used._dtypes(ca)
+            ia = list(a[3]) if isinstance(a[3], tuple) else a[3]
+            used.to_pandas(columns=a[1], categories=ca, index=ia)
+        except Exception:
+            continue        # judged by compare()
+        try:
+            attr_used = {"columns": list(used.columns), "dtypes": dict(used.dtypes)}
+            attr_fresh = {"columns": list(fresh.columns), "dtypes": dict(fresh.dtypes)}
+            if attr_used["columns"] != attr_fresh["columns"] or list(attr_used["dtypes"]) != list(attr_fresh["dtypes"]) \
+                    or any(norm_dtype(attr_used["dtypes"][k]) != norm_dtype(attr_fresh["dtypes"][k]) for k in attr_fresh["dtypes"]):
+                k = [k for k in attr_fresh["dtypes"] if k not in attr_used["dtypes"]
+                     or norm_dtype(attr_used["dtypes"][k]) != norm_dtype(attr_fresh["dtypes"][k])]
+                c.bad("stale_attributes", "%s: after a read with %s the handle reports columns %r dtypes %r, a fresh "
+                      "handle %r %r" % (what, a[0], attr_used["columns"], {x: str(attr_used["dtypes"].get(x)) for x in k},
+                                        attr_fresh["columns"], {x: str(attr_fresh["dtypes"].get(x)) for x in k}),
+                      after=a[0])
+            m_used, m_fresh = predict(used, cb), predict(fresh, cb)
+        except Exception as e:
+            c.bad("metadata_raised", "%s history %s: %s: %s" % (what, c.ctx["history"], type(e).__name__, e))
+            continue
+        if not _same_prediction(m_used, m_fresh):
+            c.bad("history_prediction", "%s: after a read with %s the handle predicts %r for %s, a fresh handle %r" % (
+                what, a[0], {k: str(v) for k, v in m_used["dtypes"].items()}, b[0],
+                {k: str(v) for k, v in m_fresh["dtypes"].items()}))
+        check_read(c, used, what + " (second read of the handle)", b[1], cb, b[3], m_used, parts=False)
+
+
+def overrides(c, pf_factory, what, partcols=(), sweep=True):
+    """dtypes override: the frame has the dtypes that were asked for (to_pandas(dtypes=) and the constructor)"""
+    import numpy as np
+    import pandas as pd
+    # the original probe: first data column, int -> float64
     try:
         pf = pf_factory(True)
         col = [x for x in pf.columns if x not in (pf._get_index() or [])][0]
         base = pf.dtypes[col]
         k = norm_dtype(base)
         if k[0] in "iu" and not k[2]:
-            import numpy as np
             over = dict(pf.dtypes)
             over[col] = np.dtype("float64")
             df = pf.to_pandas(dtypes=over)
@@ -243,6 +480,58 @@ def compare(c, pf_factory, what, datacols, partcols=(), index_names=()):
     except Exception as e:
         c.ctx = {"override": True}
         c.bad("override_raised", "%s: dtypes override: %s: %s" % (what, type(e).__name__, str(e)[:100]))
+    if not sweep:
+        return
+    # every data column x target x way of passing the mapping; all columns of the frame are compared
+    try:
+        pf0 = pf_factory(True)
+        base = dict(pf0.dtypes)
+        idx = pf0._get_index() or []
+        data_cols = [x for x in pf0.columns if x not in idx]
+    except Exception as e:
+        c.ctx = {"override": True}
+        c.bad("override_raised", "%s: dtypes override: %s: %s" % (what, type(e).__name__, str(e)[:100]))
+        return
+    for col in data_cols:
+        k = norm_dtype(base[col])
+        if k[0] in "iu" and not k[2]:
+            targets = [("float64", np.dtype("float64")),
+                       ("masked", pd.api.types.pandas_dtype({"i": "Int", "u": "UInt"}[k[0]] + str(8 * k[1])))]
+        elif k[0] in "iu" and k[2]:
+            targets = [("float64", np.dtype("float64"))]
+        else:
+            continue
+        for tname, tgt in targets:
+            for way in ("to_pandas", "constructor"):
+                c.ctx = {"override": way, "target": tname}
+                over = dict(base)
+                over[col] = tgt
+                try:
+                    if way == "to_pandas":
+                        df = pf_factory(True).to_pandas(dtypes=over)
+                    else:
+                        df = pf_factory(True, dtypes=over).to_pandas()
+                except Exception as e:
+                    c.bad("override_raised", "%s: dtypes override of %s to %s through %s: %s: %s" % (
+                        what, col, tgt, way, type(e).__name__, str(e)[:100]), exc=type(e).__name__)
+                    continue
+                if len(df):
+                    c.reads += 1
+                for x in [str(y) for y in df.columns]:
+                    if x in over and norm_dtype(actual_dtype(df, x)) != norm_dtype(over[x]):
+                        c.bad("dtype_override", "%s: dtypes override of %s to %s through %s: column %s asked %s, read gives %s" % (
+                            what, col, tgt, way, x, over[x], actual_dtype(df, x)),
+                            pred=_dts(norm_dtype(over[x])), act=_dts(norm_dtype(actual_dtype(df, x))),
+                            column="target" if x == col else "other")
+                missing = [x for x in data_cols if x not in [str(y) for y in df.columns]]
+                if missing:
+                    c.bad("dtype_override", "%s: dtypes override through %s lost the columns %r" % (what, way, missing),
+                          column="missing")
+                if len(idx) == 1 and idx[0] in over and df.index.nlevels == 1 \
+                        and norm_dtype(df.index.dtype) != norm_dtype(over[idx[0]]):
+                    c.bad("dtype_override", "%s: dtypes override through %s: index %s asked %s, read gives %s" % (
+                        what, way, idx[0], over[idx[0]], df.index.dtype), column="index",
+                        pred=_dts(norm_dtype(over[idx[0]])), act=_dts(norm_dtype(df.index.dtype)))
 
 
 def run(p):
@@ -278,16 +567,18 @@ def run_W(c, p):
     other = A.series("int64", n, "none", 1, "b")
     df = pd.DataFrame({"a": s, "b": other})
     d = scratch()
+    kw = {"times": p["times"]} if p.get("times") else {}
     for scheme in ("simple", "hive"):
         path = os.path.join(d, "t.parquet" if scheme == "simple" else "ds")
         try:
             with wr.PageCfg(ver, None):
                 fastparquet.write(path, df, row_group_offsets=[x[0] for x in _split_rows(n_per, nrg)],
-                                  file_scheme=scheme, write_index=False)
+                                  file_scheme=scheme, write_index=False, **kw)
         except Exception:
             return
-        compare(c, lambda pn, path=path: fastparquet.ParquetFile(path, pandas_nulls=pn),
-                "W %s nrg=%d nulls_in=%s v%d %s" % (kind, nrg, where, ver, scheme), ["a", "b"])
+        compare(c, lambda pn, path=path, **k: fastparquet.ParquetFile(path, pandas_nulls=pn, **k),
+                "W %s nrg=%d nulls_in=%s v%d %s%s" % (kind, nrg, where, ver, scheme, " int96" if kw else ""),
+                ["a", "b"], index_names=("a",) if ver == 1 or p.get("tier") == "thorough" else (), extras=ver == 1)
 
 
 def run_I(c, p):
@@ -300,15 +591,53 @@ def run_I(c, p):
     n = 3 * nrg
     df = pd.DataFrame({"a": A.series("int64", n, "none", 1, "a"), "t": A.series(kind, n, "none", 2, "t"),
                        "s": A.series("str_obj", n, "none", 0, "s")})
-    df.index = pd.Index(A.series(kind, n, "none", 0, "ix"), name="ix")
+    df.index = pd.Index(A.series(kind, n, "last" if p.get("ixnull") else "none", 0, "ix"), name="ix")
+    d = scratch()
+    path = os.path.join(d, "t.parquet")
+    kw = {"times": p["times"]} if p.get("times") else {}
+    try:
+        fastparquet.write(path, df, row_group_offsets=[3 * i for i in range(nrg)], write_index=True, **kw)
+    except Exception:
+        return
+    compare(c, lambda pn, path=path, **k: fastparquet.ParquetFile(path, pandas_nulls=pn, **k),
+            "I index kind %s nrg=%d%s%s" % (kind, nrg, " null in the index" if p.get("ixnull") else "",
+                                            " int96" if kw else ""),
+            ["ix", "a", "t", "s"], index_names=("t", "a"))
+
+
+def run_I2(c, p):
+    """frames written with a two-level index; read with the stored index, without, with one / two chosen columns"""
+    import os
+    import pandas as pd
+    import fastparquet
+    from mc import alphabets as A
+    from mc.scratch import scratch
+    ka, kb = p["kinds"].split("+")
+    nrg = p["nrg"]
+    n = 3 * nrg
+    df = pd.DataFrame({"a": A.series("int64", n, "none", 1, "a"), "s": A.series("str_obj", n, "none", 0, "s")})
+    df.index = pd.MultiIndex.from_arrays([A.series(ka, n, "none", 0, "i0"), A.series(kb, n, "none", 1, "i1")],
+                                         names=["i0", "i1"])
     d = scratch()
     path = os.path.join(d, "t.parquet")
     try:
         fastparquet.write(path, df, row_group_offsets=[3 * i for i in range(nrg)], write_index=True)
     except Exception:
         return
-    compare(c, lambda pn, path=path: fastparquet.ParquetFile(path, pandas_nulls=pn),
-            "I index kind %s nrg=%d" % (kind, nrg), ["ix", "a", "t", "s"], index_names=("t", "a"))
+    compare(c, lambda pn, path=path, **k: fastparquet.ParquetFile(path, pandas_nulls=pn, **k),
+            "I2 index kinds %s nrg=%d" % (p["kinds"], nrg), ["a", "s", "i0", "i1"],
+            index_names=("a", ("i0", "i1"), ("a", "s")))
+
+
+F_SPEC = {
+    # name: (physical type, converted type, values, extra schema fields)
+    "int32": (1, None, [1, -2, 3], {}), "int64": (2, None, [1, -2, 2 ** 40], {}), "bool": (0, None, [True, False, True], {}),
+    "double": (5, None, [1.5, -2.0, 0.0], {}), "utf8": (6, 0, [b"a", b"bb", b""], {}),
+    "int32_dict": (1, None, [7, 8, 7], {}), "utf8_dict": (6, 0, [b"a", b"bb", b"a"], {}),
+    "int8": (1, 15, [1, -2, 3], {}), "uint8": (1, 11, [1, 2, 200], {}), "uint64": (2, 14, [1, 2, 3], {}),
+    "ts_millis": (2, 9, [1, 2, 3], {}), "float": (4, None, [1.5, -2.0, 0.0], {}),
+    "int96": (3, None, None, {}),
+}
 
 
 def run_F(c, p):
@@ -317,12 +646,14 @@ def run_F(c, p):
     import fastparquet
     from mc.specpq import writer as W, file as F
     t, rep, nrg, where, st, ver = p["type"], p["rep"], p["nrg"], p["nulls_in"], p["stats"], p["v"]
-    spec = {"int32": (1, None, [1, -2, 3]), "int64": (2, None, [1, -2, 2 ** 40]), "bool": (0, None, [True, False, True]),
-            "double": (5, None, [1.5, -2.0, 0.0]), "utf8": (6, 0, [b"a", b"bb", b""]),
-            "int32_dict": (1, None, [7, 8, 7])}[t]
-    ptype, ct, vals = spec
-    col = {"name": "x", "ptype": ptype, "rep": rep, "ct": ct}
+    layout = p.get("layout", "xy")
+    ptype, ct, vals, extra = F_SPEC[t]
+    if t == "int96":
+        vals = [struct.pack("<qi", 0, 2440588), struct.pack("<qi", 5, 2440589), struct.pack("<qi", 0, 2440590)]
+    col = dict({"name": "x", "ptype": ptype, "rep": rep, "ct": ct}, **extra)
     col2 = {"name": "y", "ptype": 2, "rep": "required"}
+    colm = {"name": "m", "rep": "optional", "nested": "map", "ptype": None,
+            "key": {"ptype": 6, "rep": "required", "ct": 0}, "value": {"ptype": 1, "rep": "optional"}}
     rgs = []
     for gi in range(nrg):
         rows = list(vals)
@@ -331,7 +662,7 @@ def run_F(c, p):
             rows[1] = None
         chunk = {"rows": rows, "codec": 0, "pages": [{"n": 3, "enc": "RLE_DICTIONARY" if t.endswith("_dict") else "PLAIN", "v": ver}]}
         if t.endswith("_dict"):
-            chunk["dictionary"] = [7, 8]
+            chunk["dictionary"] = sorted(set(vals))
         nulls = sum(1 for r in rows if r is None)
         with_stats = st == "all" or (st == "first_only" and gi == 0) or st == "no_null_count"
         if with_stats:
@@ -341,11 +672,98 @@ def run_F(c, p):
                 fmt = "<i" if ptype == 1 else "<q"
                 chunk["stats"]["min"] = struct.pack(fmt, min(nn))
                 chunk["stats"]["max"] = struct.pack(fmt, max(nn))
-        rgs.append({"x": chunk, "y": {"rows": [gi * 10 + 1, gi * 10 + 2, gi * 10 + 3], "codec": 0,
-                                      "stats": {"null_count": 0}}})
-    data = W.write_file({"created_by": CREATED_BY, "columns": [col, col2], "row_groups": rgs})
-    compare(c, lambda pn: fastparquet.ParquetFile(io.BytesIO(data), pandas_nulls=pn),
-            "F %s %s nrg=%d nulls_in=%s stats=%s v%d" % (t, rep, nrg, where, st, ver), ["x", "y"])
+        rg = {"x": chunk, "y": {"rows": [gi * 10 + 1, gi * 10 + 2, gi * 10 + 3], "codec": 0,
+                                "stats": {"null_count": 0}}}
+        if layout == "mxy":
+            # a map owns two column chunks; both say "no nulls"
+            rg["m"] = {"rows": [[(b"k", gi)], [(b"l", 2)], [(b"k", 3), (b"l", 4)]], "codec": 0,
+                       "stats": {"null_count": 0}}
+        rgs.append(rg)
+    columns = {"xy": [col, col2], "yx": [col2, col], "mxy": [colm, col, col2]}[layout]
+    data = W.write_file({"created_by": CREATED_BY, "columns": columns, "row_groups": rgs})
+    compare(c, lambda pn, **k: fastparquet.ParquetFile(io.BytesIO(data), pandas_nulls=pn, **k),
+            "F %s %s nrg=%d nulls_in=%s stats=%s v%d layout=%s" % (t, rep, nrg, where, st, ver, layout),
+            [x["name"] for x in columns], dict_cols={"x": 2} if t.endswith("_dict") else None,
+            extras=st == "all" and (where in ("none", "last")))
+
+
+def run_P(c, p):
+    """foreign files that carry pandas metadata the way pyarrow writes it"""
+    import io
+    import json
+    import fastparquet
+    from mc.specpq import writer as W
+    case, nrg = p["case"], p["nrg"]
+
+    def mdcol(name, pandas_type, numpy_type, metadata=None, field_name=None):
+        return {"name": name, "field_name": field_name or name, "pandas_type": pandas_type, "numpy_type": numpy_type,
+                "metadata": metadata}
+
+    def chunk(rows, **k):
+        return dict({"rows": rows, "codec": 0, "stats": {"null_count": sum(r is None for r in rows)}}, **k)
+
+    x = {"name": "x", "ptype": 2, "rep": "optional", "ct": None}
+    b = {"name": "x", "ptype": 0, "rep": "optional", "ct": None}
+    y = {"name": "y", "ptype": 2, "rep": "required"}
+    t = {"name": "t", "ptype": 2, "rep": "optional", "ct": 10,
+         "lt": {"TIMESTAMP": {"isAdjustedToUTC": True, "unit": {"MICROS": {}}}}}
+    s = {"name": "s", "ptype": 6, "rep": "optional", "ct": 0}
+    i0 = {"name": "__index_level_0__", "ptype": 2, "rep": "optional", "ct": None}
+    ymd = mdcol("y", "int64", "int64")
+    nullrg = nrg - 1          # NULLs only in the last row group
+    ints = lambda gi: [1 + 10 * gi, None if gi == nullrg else 2, 3]
+    plain = lambda gi: [1 + 10 * gi, 2, 3]
+    ys = lambda gi: chunk([gi * 10 + 1, gi * 10 + 2, gi * 10 + 3])
+    index_columns, datacols, index_names, dict_cols = [], None, (), None
+    if case in ("Int64_arrow", "Int64_swapped", "int64_md_nulls", "object_md_nulls"):
+        pt, nt = {"Int64_arrow": ("int64", "Int64"), "Int64_swapped": ("Int64", "int64"),
+                  "int64_md_nulls": ("int64", "int64"), "object_md_nulls": ("int64", "object")}[case]
+        cols, mds = [x, y], [mdcol("x", pt, nt), ymd]
+        rgs = [{"x": chunk(ints(gi)), "y": ys(gi)} for gi in range(nrg)]
+    elif case == "bool_md_nulls":
+        cols, mds = [b, y], [mdcol("x", "bool", "bool"), ymd]
+        rgs = [{"x": chunk([True, None if gi == nullrg else False, True]), "y": ys(gi)} for gi in range(nrg)]
+    elif case in ("tz_ns", "tz_us", "tz_us_full", "tz_index"):
+        nt = {"tz_ns": "datetime64[ns]", "tz_us": "datetime64[us]", "tz_us_full": "datetime64[us, Europe/Paris]",
+              "tz_index": "datetime64[us]"}[case]
+        cols, mds = [t, y], [mdcol("t", "datetimetz", nt, {"timezone": "Europe/Paris"}), ymd]
+        if case == "tz_index":
+            index_columns = ["t"]
+            rgs = [{"t": chunk(plain(gi)), "y": ys(gi)} for gi in range(nrg)]
+        else:
+            rgs = [{"t": chunk(ints(gi)), "y": ys(gi)} for gi in range(nrg)]
+            index_names = ("t",)
+    elif case == "range_index":
+        cols, mds = [x, y], [mdcol("x", "int64", "int64"), ymd]
+        index_columns = [{"kind": "range", "name": None, "start": 10, "stop": 10 + 6 * nrg, "step": 2}]
+        rgs = [{"x": chunk(plain(gi)), "y": ys(gi)} for gi in range(nrg)]
+        index_names = ("y",)
+    elif case in ("unnamed_index", "named_index"):
+        nm = "__index_level_0__" if case == "unnamed_index" else "ix"
+        ic = dict(i0, name=nm)
+        cols = [x, y, ic]
+        mds = [mdcol("x", "int64", "int64"), ymd,
+               mdcol(None if case == "unnamed_index" else nm, "int64", "int64", field_name=nm)]
+        index_columns = [nm]
+        rgs = [{"x": chunk(plain(gi)), "y": ys(gi), nm: chunk([5 + 10 * gi, 6, 7])} for gi in range(nrg)]
+        index_names = ("y",)
+    else:
+        cols = [s, y]
+        mds = [mdcol("s", "categorical", "int8", {"num_categories": 2, "ordered": False}), ymd]
+        rgs = []
+        for gi in range(nrg):
+            if case == "cat_fallback" and gi == nrg - 1:
+                # the writer gave up on the dictionary: this column is no categorical
+                ch = chunk([b"a", None, b"a"], pages=[{"n": 3, "enc": "PLAIN", "v": 1}])
+            else:
+                ch = chunk([b"a", b"b" if gi else None, b"a"], pages=[{"n": 3, "enc": "RLE_DICTIONARY", "v": 1}],
+                           dictionary=[b"a", b"b"])
+            rgs.append({"s": ch, "y": ys(gi)})
+    md = json.dumps({"index_columns": index_columns, "column_indexes": [], "columns": mds,
+                     "creator": {"library": "pyarrow", "version": "14.0.1"}, "pandas_version": "2.1.0"})
+    data = W.write_file({"created_by": CREATED_BY_ARROW, "columns": cols, "row_groups": rgs, "kv": [("pandas", md)]})
+    compare(c, lambda pn, **k: fastparquet.ParquetFile(io.BytesIO(data), pandas_nulls=pn, **k),
+            "P %s nrg=%d" % (case, nrg), [cc["name"] for cc in cols], index_names=index_names)
 
 
 def run_H(c, p):
@@ -363,14 +781,20 @@ def run_H(c, p):
     d = scratch()
     path = os.path.join(d, "ds")
     fastparquet.write(path, df, file_scheme="hive", partition_on=parts, write_index=False, row_group_offsets=[0, 3])
-    compare(c, lambda pn: fastparquet.ParquetFile(path, pandas_nulls=pn), "H parts=%r %s" % (parts, pk), ["v", "s"], parts)
+    compare(c, lambda pn, **k: fastparquet.ParquetFile(path, pandas_nulls=pn, **k), "H parts=%r %s" % (parts, pk),
+            ["v", "s"], parts, index_names=tuple(parts) + ("v",))
 
 
-LEVEL_TEXT = ("Bounded-exhaustive lattice of files (written by the library for 14 column kinds x row-group counts x "
-              "position of the nulls; foreign files from a spec-level writer with every combination of nullability, "
-              "null position across row groups and statistics presence; hive datasets) x read options (column "
-              "selections, categories as list/dict/None, index, pandas_nulls, dtypes override); every metadata-only "
-              "answer is compared with the frame the real read returns.")
-LEVEL_NOTE = ("Trusted: pandas dtype introspection, specpq writer for the foreign files. Two data columns per file; "
-              "three rows per row group.")
-TECHNIQUE = "bounded exhaustive enumeration of files x read options, metadata-only predictions vs the real read"
+LEVEL_TEXT = ("Bounded-exhaustive lattice of files (written by the library for 17 column kinds x row-group counts x "
+              "position of the nulls, plus int96 timestamps; foreign files from a spec-level writer with every "
+              "combination of nullability, null position across row groups, statistics presence and column layout "
+              "(nullable column first, second, behind a map); foreign files with pyarrow-style pandas metadata; hive "
+              "datasets; frames with a one- or two-level index of many kinds) x read options (column selections, "
+              "categories as list/dict/None/declined, index None/False/column/partition column/two columns, "
+              "pandas_nulls, dtypes override per column through to_pandas and the constructor) x two-read histories "
+              "of one handle; every metadata-only answer is compared with the frame the real read returns, with "
+              "every row-group frame, with head() and with the predictions of sliced handles.")
+LEVEL_NOTE = ("Trusted: pandas dtype introspection, specpq writer for the foreign files. Two to four data columns per "
+              "file; three rows per row group.")
+TECHNIQUE = ("bounded exhaustive enumeration of files x read options x two-step handle histories, metadata-only "
+             "predictions vs the real read")
